@@ -43,6 +43,9 @@ type Sched struct {
 
 var active *Sched
 
+// DebugYield, if set, is called at every yield point passed by a task (diagnostics only).
+var DebugYield func(task string)
+
 // Current returns the task executing right now under an active scheduler, or nil.
 func Current() *Task {
 	if s := active; s != nil {
@@ -70,6 +73,9 @@ func Yield() {
 		return
 	}
 	s.Yields++
+	if DebugYield != nil {
+		DebugYield(s.cur.Name)
+	}
 	if s.free || s.SwitchPct <= 0 {
 		return
 	}
